@@ -1,4 +1,5 @@
 import ExoVerif.Proofs.Oracle
+import ExoVerif.Proofs.OracleRestart
 /-!
 # C14 — oracle restart equivalence
 
@@ -64,5 +65,216 @@ theorem C14_first_message_nonce_irrelevant_partial (size : Nat) (n : Int) (h : 0
   simp [this]
 
 example : alookup mA.creator f0.vNonce = none ∧ 0 < f0.maxNonce := by decide
+
+/-! ## the restart equivalence, proved under the hypotheses that exclude the recorded findings
+
+Definitions (Proofs/OracleRestart.lean): `Block`, `beginBlock`, `runTxs`, `runBlock`, `runBlocks` —
+the live run, block by block, through the model's own `deliverTx` / `endBlock` exactly as
+Driver/Oracle.lean steps `orc.begin` / `orc.tx` / `orc.end`; `restartAt s bt` — `orc.restart` after the
+begin of the next block (process memory dropped, `getAgc` → `recacheAgc` over the committed store);
+`Agc.Z` — the in-memory context with every recorded nonce replaced by 0 (everything else kept,
+including which validators have a nonce set, how many nonces, and all list orders). -/
+
+/-- **The property, stated outright** (plain equality of the rebuilt process memory, for every
+history). It does not hold: F-14a, F-14b (`C14_full_fails` and the two directed harness runs) and the
+nonce values themselves (a recached filter holds 0 where the live one holds the real nonce). -/
+def C14_equivalence_statement : Prop :=
+  ∀ (s0 : State) (bs : List Block) (bt : Int) (s : State) (outs : List (List TxOut)),
+    s0.agc = none → runBlocks s0 bs = some (s, outs) →
+    restartAt s bt = some { beginBlock s bt with cache := some s.cacheD }
+
+/-- the decidable hypothesis of the partial theorem. `faithful s0 bs` evaluates the live run and
+requires (conjunct → why it is needed):
+* the run does not halt, `ValidatorUpdateBlock = h` exists and the params log is the single entry
+  written at init, older than the window, equal to the current params (the model has no params-change
+  message: this is the model's own shape, not a restriction of the histories);
+* `from < to` for `from = max(h+1, to − MaxNonce + 1)`, `to` = restart height: the last validator-set
+  change is at least two blocks back (otherwise recache takes the branch without any replay *and
+  without `PrepareRoundEndBlock`* — see the report: restarted node has no rounds) and `MaxNonce ≥ 2`;
+* `startOK`: after EndBlock of height `from − 1` the live context equals (up to nonces) the context
+  `recacheAgc` starts its replay from — empty, prepared at `from − 1` — and the cache is the one a
+  recached node holds: no round is in progress with messages older than the window, every round that
+  the arithmetic puts outside its price window is closed, every one inside it at offset 0 is open
+  (rung 4 of the ladder is taken as this precise, decidable hypothesis; it fails e.g. for a restart
+  fewer than `MaxNonce` blocks after a round was finalized — F-14b and its tail);
+* `winOK` over the `to − from` blocks of the window: no validator update (EndBlock force-seals on any
+  non-empty update list, but only an effective change is persisted as ValidatorUpdateBlock); every
+  message that passes `checkMsg` is (a) "cached" — logged, i.e. neither ignored nor the finalizing
+  message whose block entries `RemoveCache` drops (F-14b), (b) the first of its validator at that
+  worker (F-14a: the log has no nonces), (c) reproduced when the *logged* sources (the filter's
+  output) are fed back to the same state; and the persisted `RecentMsg` of that height is exactly
+  what the block cached (fails on a chain younger than `MaxNonce`, where the uint64 subtraction in
+  `cacheMsgs.commit` wraps and the commit erases the whole log). -/
+def Faithful (s0 : State) (bs : List Block) : Prop := faithful s0 bs = true
+
+instance (s0 : State) (bs : List Block) : Decidable (Faithful s0 bs) := by unfold Faithful; infer_instance
+
+/-- Rung 1 (the heart): a validator's first message at a worker is processed identically whatever
+nonce it carries — replaying the logged item with nonce 0 / base block 0 yields the same result and
+the same context up to the recorded nonce, from any two contexts that agree up to nonces. -/
+theorem C14_first_message_replay_partial (g g' : Agc) (p : Params) (m m' : Msg) (hZ : g.Z = g'.Z)
+    (hc : m.creator = m'.creator) (hf : m.feederID = m'.feederID) (hp : m.prices = m'.prices)
+    (hfresh : nonceSet g p m = []) :
+    (g.fillPrice p m).1.Z = (g'.fillPrice p m').1.Z ∧ (g.fillPrice p m).2 = (g'.fillPrice p m').2 :=
+  Agc.fillPrice_sim g g' p m m' hZ hc hf hp (okG_fresh g g' p m m' hZ hc hf hfresh)
+
+/-- Rungs 2–3: over any number of blocks that satisfy the window monitor, the live run (real
+`deliverTx` with the ante handler and `checkMsg`, real `endBlock`) and `replayLoop` over the persisted
+log stay in step: at every block boundary the live context is, up to nonces, the replay state after
+its pending `PrepareRoundEndBlock`; the cache and the validator set are unchanged. -/
+theorem C14_window_replay_partial (p : Params) (c0 : Cache) (dog : List (Nat × Int)) (recent : List (Nat × Params))
+    (msgs : List (Nat × List ItemM)) (prev : Nat)
+    (hm : c0.msgs = []) (hv : c0.vUpdate = false) (hpu : c0.pUpdate = false) (win : List Block)
+    (s : State) (g : Agc) (hB : Boundary p c0 dog s g) (hw : winOK msgs s win = true) :
+    ∃ s' outs g', runBlocks s win = some (s', outs) ∧
+      replayLoop recent msgs win.length (s.height + 1) prev g [] = some (g', prev, []) ∧
+      Boundary p c0 dog s' g' ∧ s'.height = s.height + win.length :=
+  window_sim p c0 dog recent msgs prev hm hv hpu win s g hB hw
+
+/-- **C14, partial**: for every genesis state (any parameters, any validator set), every finite block
+sequence that is `Faithful`, and every block time of the next block: the node restarted after the
+last committed block rebuilds — solely from the committed store, through `recacheAgc` — a process
+state that is *equal* to the live one in every component (store, cache, validator set, height, time)
+except the aggregator context, and the rebuilt context equals the live one up to the values of the
+recorded nonces (`Agc.Z`). -/
+theorem C14_restart_equivalence_partial (s0 : State) (bs : List Block) (bt : Int) (hF : Faithful s0 bs) :
+    ∃ s outs gl gr, runBlocks s0 bs = some (s, outs) ∧ s.agc = some gl ∧
+      restartAt s bt = some { beginBlock s bt with agc := some gr } ∧ gr.Z = gl.Z :=
+  restart_equiv s0 bs bt hF
+
+/-! ### non-vacuity: 3 validators (20/10/10), one feeder (start 2, interval 7, MaxNonce 3), 10 blocks.
+Round 2 (base 2) receives v1's price in block 3, misses the threshold and is closed at block 5 with
+the previous price carried forward (stored round 2); round 3 (base 9) is open and holds the prices
+of v1 and v2 (block 10, inside the replay window 9..10) when the node restarts in block 11.
+(A round closed by a *final price* cannot be evaluated by `decide`: `median` sorts by `List.mergeSort`,
+a well-founded recursion the kernel does not unfold; the harness runs cover that case.) -/
+
+def exParams : Params :=
+  { maxNonce := 3, thA := 2, thB := 3, maxDetID := 5, maxSizePrices := 100,
+    sources := [{ valid := false, det := false }, { valid := true, det := true }],
+    rules := [[], [0], [1]], tokenDecimals := [0, 0],
+    feeders := [{ tokenID := 0, ruleID := 0, startRoundID := 0, startBaseBlock := 0, interval := 0, endBlock := 0 },
+                { tokenID := 1, ruleID := 2, startRoundID := 2, startBaseBlock := 2, interval := 7, endBlock := 0 }] }
+
+def exGenesis : State :=
+  { store := { prices := [(1, { next := 2, rounds := [(1, { price := some 1, decimal := 0, ts := -1, roundID := 1 })] })],
+               nonces := [], recentMsgs := [], msgIndex := [], recentParams := [], paramsIndex := [], vuBlock := none,
+               params := exParams },
+    agc := none, cache := none, dogfood := [(0, 20), (1, 10), (2, 10)], height := 0, blockTime := 0 }
+
+def exTx (v based : Nat) (nonce : Int) (det : String) : Tx :=
+  { size := 271, infos := [{ pubkeyMatches := true, sigValid := true }],
+    msgs := [{ creator := v, feederID := 1, basedBlock := based, nonce := nonce,
+               prices := [{ sourceID := 1, prices := [{ price := 2, decimal := 0, ts := 100, tsKind := 0, detID := det }] }] }] }
+
+def exEmpty : Block := { blockTime := 100, txs := [], updates := [] }
+
+def exBlocks : List Block :=
+  [exEmpty, exEmpty,
+   { blockTime := 100, txs := [exTx 1 2 1 "9"], updates := [] },
+   exEmpty, exEmpty, exEmpty, exEmpty, exEmpty, exEmpty,
+   { blockTime := 100, txs := [exTx 1 9 1 "9", exTx 2 9 1 "9"], updates := [] }]
+
+example : Faithful exGenesis exBlocks := by decide
+
+/-- the conclusion evaluates as claimed on that history: all three transactions accepted, stored
+round 2 carried forward (failed round), round 3 open; the restarted node's memory differs from the
+live one (the nonces) and agrees with it up to `Z`; store and cache are identical. -/
+example :
+    ((runBlocks exGenesis exBlocks).map (fun r => (r.2, (r.1.store.token 1).next))) =
+      some ([[], [], [TxOut.ok], [], [], [], [], [], [], [TxOut.ok, TxOut.ok]], 3) := by decide
+
+example :
+    ((runBlocks exGenesis exBlocks).bind (fun r => r.1.agc.map (fun g => g.rounds))) =
+      some [(1, { basedBlock := 9, nextRoundID := 3, status := Status.open })] := by decide
+
+example :
+    ((runBlocks exGenesis exBlocks).bind (fun r => (restartAt r.1 100).map (fun s' =>
+      (decide (s'.agc = r.1.agc), decide (s'.agc.map Agc.Z = r.1.agc.map Agc.Z), decide (s'.cache = r.1.cache),
+       decide (s'.store = r.1.store))))) = some (false, true, true, true) := by decide
+
+/-! ## after the restart: results of the following transactions
+
+`SRel s s'`: the two process states are equal except for the aggregator context, which agrees up to
+nonces. `txsBits s s' txs` (decidable, evaluated on both runs in lockstep): for every message that
+reaches `FillPrice`, the nonce filter computes the same bit on both nodes. This is what `Z` forgets;
+on the real chain it is enforced from outside the aggregator by the ante handler
+(`CheckAndIncreaseNonce`: the nonce let through is the stored nonce + 1, hence ≥ 1 and larger than every
+nonce recorded in the live filter, while a recached filter holds only 0s and the nonces let through since
+the restart; both sets have the same size). Not proved here: that link to the stored nonces, and the
+composition through `EndBlock` on the State level (its context operations are covered by
+`C14_seal_prepare_agree_partial`). -/
+
+/-- the full continuation statement: every later block agrees (results and stored state) -/
+def C14_continuation_statement : Prop :=
+  ∀ (s0 : State) (bs cont : List Block) (bt : Int), Faithful s0 bs →
+    ∀ s outs s', runBlocks s0 bs = some (s, outs) → restartAt s bt = some s' →
+      ∀ (txs : List Tx) (upd : List (Nat × Int)),
+        (match endBlock (runTxs (beginBlock s bt) txs).1 upd, endBlock (runTxs s' txs).1 upd with
+         | some t, some t' =>
+           (runTxs (beginBlock s bt) txs).2 = (runTxs s' txs).2 ∧
+           (runBlocks t cont).map (fun r => (r.2, r.1.store)) = (runBlocks t' cont).map (fun r => (r.2, r.1.store))
+         | none, none => True
+         | _, _ => False)
+
+/-- proved instance: all transactions of the block in which the node restarted. Accepted / rejected
+submissions (`TxOut` per transaction, incl. the message index and error class) are identical, and
+after them the two nodes still hold identical stores (finalized prices, round ids, nonces, replay
+log), caches and validator sets, and contexts equal up to nonces. -/
+theorem C14_restart_block_results_partial (s0 : State) (bs : List Block) (bt : Int) (hF : Faithful s0 bs) :
+    ∃ s outs s', runBlocks s0 bs = some (s, outs) ∧ restartAt s bt = some s' ∧ SRel (beginBlock s bt) s' ∧
+      ∀ txs : List Tx, txsBits (beginBlock s bt) s' txs = true →
+        (runTxs (beginBlock s bt) txs).2 = (runTxs s' txs).2 ∧
+        SRel (runTxs (beginBlock s bt) txs).1 (runTxs s' txs).1 := by
+  obtain ⟨s, outs, gl, gr, hrun, ha, hre, hz⟩ := restart_equiv s0 bs bt hF
+  have hR : SRel (beginBlock s bt) { beginBlock s bt with agc := some gr } := ⟨gl, gr, ha, rfl, hz.symm⟩
+  exact ⟨s, outs, _, hrun, hre, hR, fun txs hb => runTxs_rel txs _ _ hR hb⟩
+
+/-- `SealRound` and `PrepareRoundEndBlock` (the context operations of EndBlock) return the same failed
+/ sealed / newly opened feeder lists on two contexts that agree up to nonces, and keep them so. -/
+theorem C14_seal_prepare_agree_partial (g g' : Agc) (p : Params) (h : Nat) (force : Bool) (hz : g.Z = g'.Z) :
+    (g.sealRound p h force).2 = (g'.sealRound p h force).2 ∧
+    (g.sealRound p h force).1.Z = (g'.sealRound p h force).1.Z ∧
+    (g.prepareRound h).2 = (g'.prepareRound h).2 ∧ (g.prepareRound h).1.Z = (g'.prepareRound h).1.Z :=
+  ⟨(sealRound_rel g g' p h force hz).1, (sealRound_rel g g' p h force hz).2,
+   (prepareRound_rel g g' h hz).1, (prepareRound_rel g g' h hz).2⟩
+
+/-! ## two further restart points outside `Faithful` at which the model diverges (candidates, to be
+replayed on the real application; neither is F-14a/F-14b) -/
+
+/-- a validator-set change in block 9, the block at which round 3 opens; restart in block 10 -/
+def exBlocksVU : List Block :=
+  [exEmpty, exEmpty, exEmpty, exEmpty, exEmpty, exEmpty, exEmpty, exEmpty,
+   { blockTime := 100, txs := [], updates := [(2, 11)] }]
+
+/-- Restart in the block right after a validator-set change: `recacheAggregatorContext` takes its
+`from >= to` branch, which sets params and validators but never calls `PrepareRoundEndBlock`; the
+restarted node has no rounds at all and rejects ("round", oracle:2) the price the continuous node
+accepts for the round that opened in that block. -/
+theorem C14_restart_after_valset_change_diverges :
+    ((runBlocks exGenesis exBlocksVU).map (fun r => (deliverTx (beginBlock r.1 100) (exTx 0 9 1 "9")).2) = some TxOut.ok) ∧
+    ((runBlocks exGenesis exBlocksVU).bind (fun r => (restartAt r.1 100).map (fun s' => (deliverTx s' (exTx 0 9 1 "9")).2)) =
+      some (TxOut.msg 0 (MsgErr.invalidMsg "round"))) ∧
+    faithful exGenesis exBlocksVU = false := by decide
+
+/-- a chain younger than MaxNonce (= 5 here; feeder starts at block 1) -/
+def exFeeder5 : Feeder := { tokenID := 1, ruleID := 2, startRoundID := 2, startBaseBlock := 1, interval := 9, endBlock := 0 }
+def exParams5 : Params := { exParams with maxNonce := 5, feeders := [exParams.feeders.getD 0 default, exFeeder5] }
+def exGenesis5 : State := { exGenesis with store := { exGenesis.store with params := exParams5 } }
+def exBlocksYoung : List Block :=
+  [exEmpty,
+   { blockTime := 100, txs := [exTx 1 1 1 "9"], updates := [] },
+   { blockTime := 100, txs := [exTx 2 1 1 "9"], updates := [] }]
+
+/-- At heights below MaxNonce the uint64 expression `block - MaxNonce` in `cacheMsgs.commit` wraps, so
+every commit erases the whole message log: after block 3 the entry of block 2 is gone although the
+replay window of a restart in block 4 starts at block 2; the restarted node rebuilds round 2 without
+v1's report (contexts differ beyond nonces). -/
+theorem C14_young_chain_log_erased_diverges :
+    ((runBlocks exGenesis5 exBlocksYoung).map (fun r => (r.2, r.1.store.recentMsgs.map (·.1))) =
+      some ([[], [TxOut.ok], [TxOut.ok]], [3])) ∧
+    ((runBlocks exGenesis5 exBlocksYoung).bind (fun r => (restartAt r.1 100).map (fun s' =>
+      decide (s'.agc.map Agc.Z = r.1.agc.map Agc.Z))) = some false) ∧
+    faithful exGenesis5 exBlocksYoung = false := by decide
 
 end ExoVerif.Oracle
